@@ -41,6 +41,10 @@ var vASQueries = []vASQuery{
 	{"f:a or f:b", func(h func(int) bool) bool { return h(0) || h(1) }},
 	{"f:a and not f:b", func(h func(int) bool) bool { return h(0) && !h(1) }},
 	{"not f:b", func(h func(int) bool) bool { return !h(1) }},
+	{"not f:a or not f:b", func(h func(int) bool) bool { return !h(0) || !h(1) }},
+	{"not f:a and not f:b", func(h func(int) bool) bool { return !h(0) && !h(1) }},
+	{"f:a or not f:b", func(h func(int) bool) bool { return h(0) || !h(1) }},
+	{"not (f:a or f:b) or not f:a", func(h func(int) bool) bool { return !(h(0) || h(1)) || !h(0) }},
 }
 
 func vASSearch(f *Active, q string, p processor.SearchParams) (*seq.QPR, error) {
